@@ -46,6 +46,7 @@ fn lines() {
             "gen" => gen::run(&mut ctx, &toks[1..]),
             "cba" => client::run(&mut ctx, &toks[1..]),
             "ord" => client::run_ord(&toks[1..]),
+            "ordv" => client::run_ordv(&toks[1..]),
             "bnd" => bound::run_bnd(&toks[1..]),
             "cls" => bound::run_cls(&toks[1..]),
             "upd" => updater::run(&toks[1..]),
@@ -61,6 +62,7 @@ fn lines() {
                 }
             }
             "updt" => updater::run_timed(&toks[1..]),
+            "upd2" => updater::run_two(&toks[1..]),
             "shm" => engine::run(&toks[1..]),
             "stall" => engine::run_stall(&toks[1..]),
             "seg" => segfile::run_seg(&toks[1..]),
